@@ -20,7 +20,7 @@ import warnings
 
 import numpy as np
 
-from holopy.core.metadata import make_subset_data
+from holopy.core.metadata import make_subset_data, dict_to_array
 from holopy.core.utils import ensure_array, ensure_listlike, ensure_scalar
 from holopy.core.holopy_object import HoloPyObject
 from holopy.core.errors import raise_fitting_api_error
@@ -253,7 +253,7 @@ class Model(HoloPyObject):
         """
         optics_map = read_map(self._maps['optics'], pars)
         if 'noise_sd' in optics_map and optics_map['noise_sd'] is not None:
-            val = optics_map['noise_sd']
+            val = dict_to_array(schema, optics_map['noise_sd'])
         elif hasattr(schema, 'noise_sd'):
             val = schema.noise_sd
         else:
